@@ -16,6 +16,10 @@ CHECKS = {
   text="Bounded exhaustive enumeration: every input over {m,x,terminator[,\\r]} up to a length bound (plus all match-flag vectors of one-byte lines) x every searcher configuration (context sizes, invert, passthru, stop-on-nonmatch, line numbers, LF/CRLF/NUL, multi-line requested) x strategy (slice, incremental reader with tiny roll buffers and fragmented reads) x matcher line path (fast, candidate, slow, grep-regex); the full Sink event stream must equal an executable grep reference model.",
   note="Trusted: the reference model (60 lines, DESIGN.md A.1). Not covered: inputs above the length bound, context sizes above 2 (quick) / 3 (thorough).",
   tech="bounded exhaustive enumeration of inputs x configurations x strategies against a reference model (small-scope model checking)"),
+ "C04": dict(cat="exploration", ref="DESIGN.md §4 C04",
+  text="Bounded exhaustive enumeration with git itself as the oracle: every ignore-file content over a 13-token gitignore grammar (every single line up to 4/5 tokens; ordered pairs of lines; a root file with a nested a/.gitignore; case-insensitive variants; trailing blanks, escaped blanks, comments) on a fixed 144-file tree (names with dots, dashes, upper case, glob-like names); the set of files the REAL walker yields (only .gitignore active) must equal `git ls-files -o --exclude-standard` in a scratch repository.",
+  note="Trusted: git 2.39 as the specification. Skipped (no specification): lines with '//', a backslash before '/', and in path patterns a '**' that is not a whole component or a run of >= 3 stars (git contradicts its own documentation there). Known finding (open): negated classes cross '/', attributed by a counterfactual run of the real walker on rewritten classes.",
+  tech="bounded exhaustive enumeration of ignore-file contents against an executable specification (git)"),
  "C07": dict(cat="model_checking", ref="DESIGN.md §2, §3-E3, §4 C07",
   text="Stateless model checking of the real implementation: the real ignore::WalkParallel runs under a cooperative replay scheduler (feature verif-hooks) and every interleaving of its hooked synchronisation points is executed up to a preemption bound (iterative preemption bounding, CHESS style), with injected Steal::Retry answers and a visitor Quit injected at every visit index, over all small trees; oracle: termination (deadlock / livelock detection) and exact visit multiset.",
   note="Trusted: crossbeam-deque linearizability (each deque operation is one atomic step; Retry is injected), SC behaviour of the RMW/SeqCst atomics, the scheduler hook itself. Not covered: more than 3 (quick) / 4 (thorough) workers, trees above the size bound, schedules needing more preemptions than the bound.",
